@@ -362,7 +362,7 @@ def expected_queries(w, i, svc, inst, kind):
     """Reference rendering of the query text(s) for service svc (kind: 'first'|'relogin')."""
     c = CLIENTS[i]
     st = w.stype[svc]
-    host = c['host'] if 'N' in inst.have else c['addr']
+    host = c['host'][:63] if 'N' in inst.have else c['addr']
     user = expected_user(c, inst)
     nick = c['nick'][:30] if 'n' in inst.have else ''
     real = c['real'][:50] if 'U' in inst.have else ''
@@ -490,6 +490,7 @@ def step(w, M, ev, ctx_pre, new_serial, out_lines, addr_check=True):
 
     # ---- outputs, in order ----------------------------------------------------------------------
     parsed = []
+    queried_before = {j: (x.queried if x is not None else frozenset()) for j, x in st.items()}   # two lines of one query (CHECK + LOGIN) are one asking
     for line in out_lines:
         p = parse_line(line)
         parsed.append(p)
@@ -588,9 +589,9 @@ def step(w, M, ev, ctx_pre, new_serial, out_lines, addr_check=True):
                 wantl = expected_queries(w, j, p.svc, cur, 'first')
                 if p.text not in wantl:
                     V.append(('C06.query-content', 'query %r differs from the client\'s own data, expected one of %r' % (line, wantl)))
-                if p.svc in cur.queried and k != 'P':
+                if p.svc in queried_before.get(j, ()) and k != 'P':
                     V.append(('C06.query-repeated', 'service %s asked again (%r) on a non-password event' % (p.svc, line)))
-                if p.svc in cur.queried and stype == 'dronecheck':
+                if p.svc in queried_before.get(j, ()) and stype == 'dronecheck':
                     V.append(('C06.query-repeated', 'dronecheck service %s asked twice (%r)' % (p.svc, line)))
             st[j] = cur._replace(owed=cur.owed | {p.svc}, queried=cur.queried | {p.svc})
 
